@@ -171,31 +171,10 @@ def run(run):
             args = ["query", "--project", proj.dir, "--stdin", "--output", "json", "--disable-metrics"]
             for mode in ("piped", "incremental"):
                 env = dict(os.environ, HOME=os.path.join(C.BUILD, "home"))
-                p = subprocess.Popen([os.path.join(C.BUILD, "pathfinder")] + args, stdin=subprocess.PIPE, stdout=subprocess.PIPE, stderr=subprocess.STDOUT, env=env)
-                try:
-                    if mode == "piped":
-                        out, _ = p.communicate(payload.encode(), timeout=180)
-                    else:
-                        data = payload.encode()
-                        i = 0
-                        while i < len(data):
-                            nb = rng.choice([1, 2, 5, 40, 400])
-                            try:
-                                p.stdin.write(data[i:i + nb]); p.stdin.flush()
-                            except BrokenPipeError:
-                                break
-                            i += nb
-                            if rng.random() < 0.3:
-                                time.sleep(0.005)
-                        try:
-                            p.stdin.close()
-                        except BrokenPipeError:
-                            pass
-                        out = p.stdout.read()
-                        p.wait(timeout=180)
-                except subprocess.TimeoutExpired:
-                    p.kill()
-                    run.violation("C16:console-hang", "console hangs", dict(stdin=payload))
+                out, rc_console = C.run_console([os.path.join(C.BUILD, "pathfinder")] + args, payload.encode(), rng=rng,
+                                                chunks=(None if mode == "piped" else [1, 2, 5, 40, 400]), timeout=180, env=env)
+                if rc_console is None:
+                    run.violation("C16:console-hang", "console session hangs (no end within 180 s)", dict(stdin=payload[:20000], mode=mode))
                     continue
                 text = out.decode("utf-8", "replace").replace("\x1b[H\x1b[J", "")
                 # split the transcript at the prompts
